@@ -20,6 +20,13 @@ family cannot decide.  Decided necessary conditions (DESIGN.md §2 C12):
             un-run lambda / generator over a per-iteration variable; a non-None record is computed from all of that
             primary's fallback components.  (Assumes: only item/attribute stores, augmented assignments and the
             standard container mutators change an object; helpers called per primary do not keep state in `self`.)
+  C12.VISIT every "for all components / successors / primaries" of the generators and of the graph queries is a `for`
+            loop or comprehension over a collection: nothing in its body resizes or reorders the object it is walking
+            (`.remove/.pop/.clear/.insert/.sort/.discard/.add/...`, `del x[i]`, slice store, in-place `-=`/`|=`), under
+            any alias, in an inner loop, or in a private method / nested function that is handed the collection —
+            unless the loop is left right after it (no further step of the same iterator).  Walking a copy
+            (`list(x)`, `sorted(x)`, a comprehension) and tail growth of a list (`append`, work-list idiom) are fine.
+            (Assumes: aliases arise from plain `a = b` assignments and argument passing; calls followed 3 deep.)
 
 How the rules read the code (so that behaviour-preserving rewrites do not matter):
   * predicates are compared as *values*: the function's symbolic return expression (locals
@@ -42,9 +49,10 @@ from ..engine.normalize import inline_helpers
 from ..engine.report import AnalysisError, Run
 from ..engine.resolver import FuncInfo, Program, parent_map, walk_no_nested
 from ..engine.util import method_call, node_calls, node_writes, nodes_with_call, reaching_defs
-from ._c12_util import (EAGER_CONSUMERS, DupFree, Folder, IterationSlice, alias, bcanon, call_args, deref, edges_establishing,
-                        emptiness, facts, literals, name_aliases, normal, path_avoiding_edges, places_read, pmap, rename,
-                        resolve_callable, simplify_under, single_defs, size_subject, test_edges, txt)
+from ._c12_util import (EAGER_CONSUMERS, DupFree, Folder, IterationSlice, LoopMutation, alias, bcanon, call_args, deref,
+                        edges_establishing, emptiness, facts, literals, name_aliases, normal, path_avoiding_edges, place_aliases,
+                        places_read, pmap, rename, resolve_callable, resizes, simplify_under, single_defs, size_subject, test_edges,
+                        txt, walked_places)
 
 CG = "microgrid.component_graph:_MicrogridComponentGraph"
 GEN = "timeseries.formula_engine._formula_generators"
@@ -1612,6 +1620,93 @@ def stored_closures(sl: IterationSlice, e: ast.AST, at: int, depth: int = 0) -> 
     return out
 
 
+# ------------------------------------------------------------------------------------------------
+def visit_scope(cx: Ctx) -> list[FuncInfo]:
+    """Every function the formulas are generated by: all functions (methods, module functions, nested functions) of
+    the formula-generator package and of the component-graph class they query."""
+    tops: list[FuncInfo] = []
+    for mod in cx.prog.modules.values():
+        if mod.name.startswith(GEN):
+            tops.extend(mod.functions.values())
+            for cls in mod.classes.values():
+                tops.extend(cls.methods.values())
+    tops.extend(cx.prog.cls(CG).methods.values())
+    out: list[FuncInfo] = []
+
+    def add(fn: FuncInfo) -> None:
+        out.append(fn)
+        for s in fn.node.body:
+            for n in walk_no_nested(s):
+                if isinstance(n, (ast.FunctionDef, ast.AsyncFunctionDef)):
+                    add(FuncInfo(n.name, fn.module, n, None, fn))
+
+    for fn in sorted(tops, key=lambda f: f.qual):
+        add(fn)
+    return out
+
+
+def check_visit(run: Run, cx: Ctx) -> None:
+    """C12.VISIT — every formula is a sum over *all* components of a kind / *all* successors / *all* primaries, and
+    each of these "all" is a `for` loop (or comprehension) over a collection.  Necessary for any of them: while the
+    loop runs, nothing resizes or reorders the object it is walking — not by name, not under an alias, not in an
+    inner loop, not in a helper that is handed the collection."""
+    lm = LoopMutation(cx.prog)
+    n = 0
+    for fn in visit_scope(cx):
+        loops = [x for s in fn.node.body for x in walk_no_nested(s) if isinstance(x, (ast.For, ast.AsyncFor))]
+        comps = [x for s in fn.node.body for x in walk_no_nested(s)
+                 if isinstance(x, (ast.ListComp, ast.SetComp, ast.DictComp, ast.GeneratorExp))]
+        if not loops and not comps:
+            continue
+        run.analysed(fn.qual)
+        short = (f"{fn.cls.name}." if fn.cls else "") + (fn.qual.split(":")[1] if fn.outer is not None else fn.name)
+        cfg: CFG | None = None
+        k = 0
+        for loop in sorted(loops, key=lambda x: (x.lineno, x.col_offset)):
+            if not walked_places(loop.iter):
+                continue  # walks a value made for the loop (a call result, a copy): nobody else can reach it
+            if cfg is None:
+                cfg = CFG(fn.node, fn.file)
+            walked, live = lm.of_loop(fn, loop, cfg)
+            k += 1
+            n += 1
+            what = "; ".join(f"`{p}` {how} at line {getattr(x, 'lineno', 0)}" for x, p, how in live)
+            run.check(not live, "C12.VISIT", fn.qual,
+                      f"`for {txt(loop.target)} in {txt(loop.iter)[:50]}`" + (f": {what}" if live else ""),
+                      f"the loop `for {txt(loop.target)} in {txt(loop.iter)[:60]}` walks {sorted(walked)} and its own body changes "
+                      f"that very object while the loop is still running ({what or '-'}). A `for` statement keeps ONE cursor "
+                      "into the live collection: removing an element of a list moves the following elements one place "
+                      "down, so the element behind a removed one is never visited (a set / dict raises RuntimeError "
+                      "instead and no formula is generated at all). Whatever the loop does per element — collect the "
+                      "dedicated meter of each CHP, pair a device with its meter, push one term of the sum, search "
+                      "below one grid successor — is then silently not done for some components: with two or more of "
+                      "them the generated formula misses terms and no longer evaluates to the true total (CHP / PV / "
+                      "battery power too small, grid != consumer + producer + battery + EV). The same clause excludes "
+                      "the sibling spellings: `.pop()` / `.clear()` / `del x[i]` / `.insert()` / `.sort()` / `-=` on the "
+                      "walked collection, the mutation done under an alias (`work = chps`), inside an inner loop or "
+                      "comprehension, or in a helper that is handed the collection; iterate over a copy "
+                      "(`for c in list(chps)`) or build a new collection instead",
+                      node=live[0][0] if live else loop, file=fn.file,
+                      instance=f"{short}: loop #{k} does not resize the collection it walks")
+        for comp in comps:
+            for gi, g in enumerate(comp.generators):
+                walked = walked_places(g.iter)
+                if not walked:
+                    continue
+                places = lm._close(walked, place_aliases(fn.node))
+                later: list[ast.AST] = [*g.ifs, *(x for g2 in comp.generators[gi + 1:] for x in [g2.iter, *g2.ifs])]
+                later += [comp.key, comp.value] if isinstance(comp, ast.DictComp) else [comp.elt]
+                hits = lm.in_nodes(fn, later, places, lm._lists(fn.node, places))
+                n += 1
+                run.check(not hits, "C12.VISIT", fn.qual, f"`{txt(comp)[:70]}`",
+                          f"the comprehension walks {sorted(walked)} and changes that very object per element "
+                          f"({'; '.join(f'`{p}` {how}' for _x, p, how in hits) or '-'}): elements are skipped (list) or the "
+                          "generation fails (set / dict), so some components are missing from the generated formula",
+                          node=comp, file=fn.file, instance=f"{short}: a comprehension does not resize the collection it walks")
+    if n < 10:
+        raise AnalysisError(f"C12.VISIT: only {n} loops over a named collection found in the formula generators and the component graph")
+
+
 CG_MOD = "microgrid.component_graph"
 CONTROLS = [
     ("is_chp_chain dropped from one sibling", f"{GEN}._consumer_power_formula",
@@ -1698,6 +1793,19 @@ CONTROLS = [
     ("fallback ids handed over as an un-run generator over a per-iteration local", f"{GEN}._grid_power_formula",
      "                    component_ids=set(fallback_ids),\n",
      "                    component_ids=(i for _once in (0,) for i in fallback_ids),\n", "C12.FALLBACK"),
+    ("CHPs behind an accepted meter are removed from the list that is being walked (inner loop)", f"{GEN}._chp_power_formula",
+     "            chp_meters.add(meter.component_id)\n        return chp_meters\n",
+     "            chp_meters.add(meter.component_id)\n            for successor in meter_successors:\n"
+     "                chps.remove(successor)\n        return chp_meters\n", "C12.VISIT"),
+    ("summed grid successors are discarded from the walked set under an alias, behind enumerate()", f"{GEN}._grid_power_formula_base",
+     "            for idx, comp in enumerate(components):\n                if idx > 0:\n",
+     "            todo = components\n            for idx, comp in enumerate(components):\n                todo.discard(comp)\n"
+     "                if idx > 0:\n", "C12.VISIT"),
+    ("a nested helper that is handed the walked components drops the ones it believes covered", f"{GEN}._formula_generator",
+     "        for component in components:\n            if component.category == ComponentCategory.METER:\n",
+     "        def covered(pool: set[Component], done: Component) -> None:\n            pool.discard(done)\n\n"
+     "        for component in components:\n            covered(components, component)\n"
+     "            if component.category == ComponentCategory.METER:\n", "C12.VISIT"),
 ]
 
 
@@ -1708,6 +1816,7 @@ def run_rules(run: Run, prog: Program) -> None:
     check_dfs(run, cx)
     check_emit(run, cx)
     check_fallback(run, cx)
+    check_visit(run, cx)
     for helper in cx.folder.read.values():  # private helpers read in line are part of what the rules depend on
         if helper.outer is None:
             run.analysed(helper.qual)
@@ -1722,7 +1831,10 @@ def check(run: Run, prog: Program, tier: str) -> str:
              "grid power over every measurable grid successor")
     run.rule("C12.FALLBACK", "the fallback formula recorded for a primary component is filed under that primary and computed from "
              "its own fallback components and this iteration's values only (no state carried across primaries, no late-bound closure)")
+    run.rule("C12.VISIT", "no loop / comprehension of the formula generators or the component graph resizes or reorders the collection "
+             "it is walking (by name, under an alias, in an inner loop, or in a helper that is handed the collection)")
     run_rules(run, prog)
+    run.floor("C12.VISIT", 20)
     run.floor("C12.FALLBACK", 3)
     run.floor("C12.PART", 8)
     run.floor("C12.METER", 11)
@@ -1731,7 +1843,7 @@ def check(run: Run, prog: Program, tier: str) -> str:
     from ..engine.controls import run_controls
 
     by_rule = {"C12.PART": check_part, "C12.METER": check_meter, "C12.DFS": check_dfs, "C12.EMIT": check_emit,
-               "C12.FALLBACK": check_fallback}
+               "C12.FALLBACK": check_fallback, "C12.VISIT": check_visit}
     run_controls(run, CONTROLS, run_rules, tier, select=lambda rule: (lambda r, p: by_rule[rule](r, Ctx(p))))
     run.undecided("that these traversals produce the true totals on every valid component graph (nested meters, "
                   "mixed meters, unmetered load): a graph-algorithm correctness statement over all topologies — "
